@@ -247,3 +247,32 @@ Proof.
     { qstrip. apply Qmult_le_0_compat; [apply Qmult_le_0_compat; [apply Qmult_le_0_compat; [exact Hg | discriminate] | apply Qlt_le_weak; exact HR] | apply Qmult_le_0_compat; [exact Hl | apply Qlt_le_weak; exact Hp]]. }
     lra.
 Qed.
+
+(* ---------------------------------------------------------------- T-model transformer, end to end:
+   row with the _wye_delta parameters -> makeYbus stamps -> pfsoln flows -> pl_mw >= 0 *)
+Lemma re_pl a b : re (pl a b) == re a + re b.
+Proof. unfold pl, Cadd. cbn [re]. apply qadd_correct. Qed.
+Lemma re_scale k z : re (Cscale k z) == k * re z.
+Proof. unfold Cscale. cbn [re]. apply qmul_correct. Qed.
+
+Lemma t_model_row_loss_nonneg : forall br e vf vt sn r x g b rr xr,
+  b_stat br = true -> b_ra br == 0 -> b_xa br == 0 ->
+  ~ (b_r br) * (b_r br) + (b_x br) * (b_x br) == 0 -> ~ b_tap br == 0 -> re e * re e + im e * im e == 1 ->
+  (b_r br, b_x br, b_g br, b_b br, b_ga br, b_ba br) = wye_delta_core r x g b rr xr ->
+  let za := wd_za r x rr xr in let zb := wd_zb r x rr xr in let yc := mkC g b in
+  ~ za ==c C0 -> ~ zb ==c C0 -> ~ yc ==c C0 -> ~ Cadd (Cadd za zb) (Cmul (Cmul za zb) yc) ==c C0 ->
+  0 <= sn -> 0 <= re za -> 0 <= re zb -> 0 <= g ->
+  0 <= re (pl (fst (flows (stamps_core br e) vf vt sn)) (snd (flows (stamps_core br e) vf vt sn))).
+Proof.
+  intros br e vf vt sn r x g b rr xr Hs Hra Hxa Hz Ht He Hrow za zb yc Ha Hb Hc Hd Hsn Pa Pb Pg.
+  pose proof (t_model_row_flows br e vf vt sn r x g b rr xr Hs Hra Hxa Hz Ht He Hrow Ha Hb Hc Hd) as F.
+  cbn zeta in F. fold za zb yc in F.
+  set (vf' := Cdiv vf (Cscale (b_tap br) e)) in *.
+  set (i := t_circuit_I za zb yc vf' vt) in *.
+  destruct F as [F1 F2]. cbn [fst snd] in F1, F2.
+  rewrite re_pl, F1, F2, !re_scale.
+  assert (E : sn * re (Cmul vf' (Cconj (fst i))) + sn * re (Cmul vt (Cconj (snd i))) == sn * re (port_power vf' vt i)).
+  { unfold port_power, Cadd. cbn [re]. rewrite qadd_correct. ring. }
+  rewrite E. apply Qmult_le_0_compat; [exact Hsn|].
+  unfold i. apply t_circuit_loss_nonneg; assumption.
+Qed.
